@@ -10,7 +10,7 @@ import z3
 from . import terms as T
 from . import mathfn
 from . import arrays as A
-from .vc import Unsupported, PathAbort
+from .vc import Unsupported, PathAbort, PathEnd
 from .values import (Sym, SArr, SSeq, SObj, Opaque, ModuleRef, ClassRef, FuncVal, BoundMethod, Builtin,
                      PartialVal, ExcClass, ExcInstance, TypeVal, StrSym, PyRaise, UNDEF, wrap, term_of,
                      is_scalar, exc_isinstance, EXC_PARENT)
@@ -620,11 +620,23 @@ class Interp:
                 cm.exit(self)
 
     # ---------------------------------------------------------------- loops
-    def _loop_key(self, env):
+    def _loop_key(self, env, st=None):
+        """(function qualname, static ordinal of the loop statement inside that function, source order)"""
         q = env.func.qualname if env.func else "<module>"
-        k = self.loop_counters.get(q, 0)
-        self.loop_counters[q] = k + 1
-        return q, k
+        if st is None or env.func is None:
+            k = self.loop_counters.get(q, 0)
+            self.loop_counters[q] = k + 1
+            return q, k
+        node = env.func.node
+        idx = getattr(node, "_vf_loop_index", None)
+        if idx is None:
+            idx = {}
+            loops = [n for n in ast.walk(node) if isinstance(n, (ast.For, ast.While))]
+            loops.sort(key=lambda n: (n.lineno, n.col_offset))
+            for i, n in enumerate(loops):
+                idx[id(n)] = i
+            node._vf_loop_index = idx
+        return q, idx.get(id(st), -1)
 
     def iterate_concrete(self, it):
         """-> list of items if the iterable has a concrete number of items, else None"""
@@ -655,7 +667,7 @@ class Interp:
         raise Unsupported(f"iteration over {type(it).__name__}")
 
     def st_For(self, st, env):
-        key = self._loop_key(env)
+        key = self._loop_key(env, st)
         it = self.eval(st.iter, env)
         items = self.iterate_concrete(it)
         if items is not None:
@@ -831,7 +843,7 @@ class Interp:
             if dec0 is not None:
                 dec1 = spec.decreases(self, env)
                 cx.oblige(f"{q.split('.')[-1]}::term.{tag}", T.land(T.lt(dec1, dec0), T.ge(dec0, 0)), "term")
-            raise PathAbort("end of loop body path")
+            raise PathEnd("end of loop body path")
         else:
             # 3. exit: assume inv at n (for) / inv and not guard (while)
             if is_for:
@@ -848,7 +860,7 @@ class Interp:
             self.exec_block(st.orelse, env)
 
     def st_While(self, st, env):
-        key = self._loop_key(env)
+        key = self._loop_key(env, st)
         spec = self.loop_specs.get(key)
         if spec is not None:
             return self.run_invariant_loop(st, env, key, spec, while_test=st.test)
